@@ -91,11 +91,11 @@ impl MultiPeerBackend for RepSocketBackend {
             .insert(peer_id.clone(), recv_queue);
     }
 
-    fn peer_disconnected(&self, peer_id: &PeerIdentity) {
+    async fn peer_disconnected(&self, peer_id: &PeerIdentity) {
         if let Some(monitor) = self.monitor().lock().as_mut() {
             let _ = monitor.try_send(SocketEvent::Disconnected(peer_id.clone()));
         }
-        self.peers.remove_sync(peer_id);
+        self.peers.remove_async(peer_id).await;
     }
 }
 
@@ -171,7 +171,7 @@ impl SocketRecv for RepSocket {
                     }
                 },
                 Some((peer_id, Err(e))) => {
-                    self.backend.peer_disconnected(&peer_id);
+                    self.backend.peer_disconnected(&peer_id).await;
                     return Err(e.into());
                 }
                 None => {
